@@ -344,7 +344,7 @@ func traffic(r *rand.Rand, kind string, count int) []byte {
 
 func runC19(res *result) error {
 	res.Rule = "the real proxy binary built from /repo between a test client and a test upstream server on TCP loopback: client-to-server and server-to-client byte streams (valid frames, CRC-valid frames with " +
-		"malformed content, random bytes, payloads and non-RTCM data containing '<' and '>') in random chunkings and as single bursts of several read buffers; both directions compared byte for byte; in verbose runs the message log " +
+		"malformed content, random bytes, payloads and non-RTCM data containing '<' and '>') in random chunkings, as single bursts of several read buffers, and as single bursts of exactly 1..3 times 1024/2048/4096/8192 bytes followed by silence; both directions compared byte for byte; in verbose runs the message log " +
 		"(raw bytes of every message the parser produced, i.e. what the report lists) must be a prefix of the relayed client stream and, for streams of valid frames, all of it; /status/report fetched and the number of '<'/'>' in the body " +
 		"compared with the number the page has when the traffic contains no markup at all; non-trivial = at least 100 bytes relayed; distinct = distinct traffic"
 	tmp, err := os.MkdirTemp("", "verif-c19")
@@ -394,6 +394,18 @@ func runC19(res *result) error {
 			count = 40 + r.Intn(40)
 		}
 		c2s := traffic(r, kind, count)
+		// every fourth run: one burst whose length is an exact multiple of a plausible read-buffer
+		// size, after which the client stays quiet (it waits for the server's answer) - the bytes
+		// must still arrive upstream
+		aligned := i%4 == 2
+		if aligned {
+			burst = true
+			size := []int{1024, 2048, 4096, 8192}[r.Intn(4)] * (1 + r.Intn(3))
+			for len(c2s) < size {
+				c2s = append(c2s, traffic(r, kind, 40)...)
+			}
+			c2s = c2s[:size]
+		}
 		s2c := traffic(r, kinds[r.Intn(len(kinds))], 3+r.Intn(8))
 		gotUp := make(chan []byte, 1)
 		go func() {
@@ -520,7 +532,7 @@ func runC19(res *result) error {
 					switch {
 					case !bytes.HasPrefix(c2s, parsed):
 						fail = fmt.Sprintf("the messages parsed for the report and the message log are not the relayed stream: first difference at byte %d of %d parsed bytes (relayed %d)", firstDiff(parsed, c2s), len(parsed), len(c2s))
-					case kind == "valid-frames" && len(parsed) != len(c2s):
+					case kind == "valid-frames" && !aligned && len(parsed) != len(c2s):
 						fail = fmt.Sprintf("the message log holds %d of the %d relayed bytes of valid frames", len(parsed), len(c2s))
 					}
 				} else {
@@ -560,6 +572,9 @@ func runC19(res *result) error {
 		}
 		if burst {
 			kind += "/burst"
+		}
+		if aligned {
+			kind += fmt.Sprintf("/aligned-%d", len(c2s))
 		}
 		if logged {
 			kind += "/logged"
